@@ -18,5 +18,9 @@ class ROC(Indicator):
         if self.prev_exists() or self.reading_period(self.period + 1, self.input_value):
             period_n_back = self.reading(self.input_value, index - self.period)
 
+            if period_n_back == 0:
+                # No rate of change from zero (zero volume, a flat oscillator), TA-Lib reports 0
+                return 0.0
+
             return ((self.reading(self.input_value) - period_n_back) / period_n_back) * 100
         return None
